@@ -147,6 +147,10 @@ class ShuffleContinuumSampler(AbstractContinuumSampler):
         Returns a random value from the provided list of segments, by randomly choosing
         a segment (weighted by its length) and then using uniform distribution in it.
         """
+        if self._pivot_type == 'int_pivot':
+            # Only the whole numbers inside the segments can be drawn : each segment is narrowed to them.
+            segments = [Segment(np.ceil(segment.start), np.floor(segment.end) + 1) for segment in segments
+                        if np.ceil(segment.start) <= np.floor(segment.end)]
         segments = np.array(segments)
         weights = np.array(list(segment.end - segment.start for segment in segments))
         weights /= np.sum(weights)
@@ -155,7 +159,7 @@ class ShuffleContinuumSampler(AbstractContinuumSampler):
         except ValueError:
             return 1
         if self._pivot_type == 'int_pivot':
-            return int(np.random.uniform(segment.start, segment.end))
+            return int(np.floor(np.random.uniform(segment.start, segment.end)))
         else:
             return np.random.uniform(segment.start, segment.end)
 
